@@ -14,7 +14,7 @@ COQ = os.path.join(ROOT, "coq")
 TARGET = os.path.join(CACHE, "target")
 HARNESS = os.path.join(TARGET, "release", "vharness")
 DRIVER = os.path.join(CACHE, "ocaml", "driver")
-REPO = "/repo"
+REPO = os.environ.get("VERIF_REPO", "/repo")   # /repo unless a scratch copy is being checked (vp run --with-repo)
 
 ENV = dict(os.environ)
 ENV.update({
@@ -68,8 +68,17 @@ def build_harness():
         if not os.path.exists(lock_dst):
             import shutil
             shutil.copy(lock_src, lock_dst)
-        rc, out = sh(["cargo", "build", "--release", "--offline"], cwd=os.path.join(ROOT, "harness"),
-                     timeout=1500)
+        hdir = os.path.join(ROOT, "harness")
+        if REPO != "/repo":
+            # a scratch copy of the repository: build a copy of the harness that depends on it
+            import shutil
+            alt = os.path.join(CACHE, "harness-alt")
+            shutil.rmtree(alt, ignore_errors=True)
+            shutil.copytree(hdir, alt, ignore=shutil.ignore_patterns("target"))
+            t = open(os.path.join(alt, "Cargo.toml")).read().replace('path = "/repo"', 'path = "%s"' % REPO)
+            open(os.path.join(alt, "Cargo.toml"), "w").write(t)
+            hdir = alt
+        rc, out = sh(["cargo", "build", "--release", "--offline"], cwd=hdir, timeout=1500)
         return rc, out
 
 
